@@ -28,7 +28,7 @@ TraceInit ==
   /\ snap = [n \in Nodes |-> 0] /\ first = [n \in Nodes |-> 1]
   /\ ctl = None /\ disp = [n \in Nodes |-> Off] /\ dead = {}
   /\ floor = 0
-  /\ mem = [lp |-> e.st.lp, up |-> e.st.up, leader |-> e.st.leader]
+  /\ mem = [lp |-> e.st.lp, up |-> e.st.up, leader |-> e.st.leader, disps |-> e.st.dispatchers]
   /\ l = 2
 
 Fail(kind, e, name) == PrintT(<<"FAIL", kind, e.t, l, e.a, name>>)
@@ -38,6 +38,14 @@ Chk(ok, kind, e, name) == IF ok THEN TRUE ELSE Fail(kind, e, name)
 \* is already in the stream (publish THEN record)
 I_RecordsArePublished ==
   \A i \in 1..Len(rlog) : rlog[i].k = "P" => (Elig(rlog, rlog[i].pi) /\ rlog[i].pi < i /\ rlog[i].pi \in Ids(pub))
+\* C18_ControllerDispatches of Activity.tla on the recorded server: it is up, its
+\* promotion to controller has run (leader) and the driver counted its dispatcher
+\* goroutines (dispatchers >= 0; on a "Stalled" line the count was 0 for seconds
+\* while a dispatcher step was awaited).  Evaluated on Stalled lines only: elsewhere
+\* a goroutine that was just spawned may not have entered its function yet.
+T_ControllerDispatches ==
+  (l > 1 /\ Trace[l - 1].a = "Stalled") => ~(mem.up /\ mem.leader /\ mem.disps = 0)
+
 \* the lowest replicated lastPublished a dispatcher that may still publish can
 \* have started from: on one server the value before the step; with several
 \* servers the value before the last controller change (the previous
@@ -52,7 +60,7 @@ TraceNext ==
   /\ l' = l + 1
   /\ LET e == Trace[l] IN
      /\ rlog' = e.st.rlog /\ pub' = e.st.pub /\ blocked' = e.st.blocked
-     /\ mem' = [lp |-> e.st.lp, up |-> e.st.up, leader |-> e.st.leader]
+     /\ mem' = [lp |-> e.st.lp, up |-> e.st.up, leader |-> e.st.leader, disps |-> e.st.dispatchers]
      /\ Dummies
      /\ floor' = NextFloor(e)
      /\ IF e.a = "Open" THEN TRUE
@@ -62,6 +70,7 @@ TraceNext ==
      /\ Chk(C18_NoSkip', "P", e, "C18_NoSkip")
      /\ Chk(C18_FirstOrder', "P", e, "C18_FirstOrder")
      /\ Chk(C18_LPSound', "P", e, "C18_LPSound")
+     /\ Chk(T_ControllerDispatches', "P", e, "C18_ControllerDispatches")
      /\ Chk(I_RecordsArePublished', "I", e, "I_RecordsArePublished")
      /\ Chk(TypeOK', "I", e, "TypeOK")
 
